@@ -51,8 +51,17 @@ def replaceHttps : List Rune → List Rune
   | c :: rest => c :: replaceHttps rest
   | [] => []
 
+/-- `if strings.HasPrefix(in, "Https://") { in = "Http://" + in[8:] }`: the case-preserving mode of
+Normalize keeps the case of a word's first rune only -/
+def fixHttpsHead : List Rune → List Rune
+  | 72 :: 116 :: 116 :: 112 :: 115 :: 58 :: 47 :: 47 :: rest => 72 :: 116 :: 116 :: 112 :: 58 :: 47 :: 47 :: rest
+  | w => w
+
+/-- `normalizeToken` -/
+def normalizeToken (w : List Rune) : List Rune := replaceHttps (fixHttpsHead w)
+
 /-- `flushBuf`: string(obuf) → html.UnescapeString → normalizeToken (→ interned in the local dictionary) -/
-def flushWord (E : Env) (obuf : List Rune) : Word := replaceHttps (E.unescape obuf)
+def flushWord (E : Env) (obuf : List Rune) : Word := normalizeToken (E.unescape obuf)
 
 /-- `header(in)` -/
 def header (E : Env) (w : Word) : Bool :=
